@@ -106,7 +106,7 @@ def check_config(ss, knobs):
     return out
 
 
-def simulate(plan, taps_kwargs=None, keep_dir=False):
+def simulate(plan, taps_kwargs=None, keep_dir=False, on_segment=None):
     """
     Execute a tds-sim plan.  Returns (ss, hist).  hist['violations'] holds violations detected online
     (config fidelity); everything else is judged by the oracle functions below.
@@ -155,6 +155,8 @@ def simulate(plan, taps_kwargs=None, keep_dir=False):
             hist['segments'].append({'tf': tf, 'ret': bool(ret), 't_start': t_before, 't_end': float(ss.dae.t),
                                      'busted': bool(ss.TDS.busted), 'exit_code': int(ss.exit_code),
                                      'n_attempts': hist['n_attempts']})
+            if on_segment is not None:
+                on_segment(ss, hist, si)
             if not ret:
                 break
     except SimCrash:
